@@ -10,14 +10,18 @@
   * `reference_bytes`: the bytes written for a reference (OBNAME / OBJREF attribute value, or the reference that
     opens an indirectly formatted record) are the encoding of the target's identity, which the strict decoder
     returns (C06), i.e. a reference decodes to the identity of the object passed by the user;
-  * `records_isolated` (C18) gives "defined in the same logical file" for the objects; for *references* the code
-    only checks the class of the target, so a reference to an object of another logical file is accepted
-    (known finding, see DESIGN.md) — the theorem about references is therefore stated for the target's identity,
-    not for its membership.
+  * `accepted_references_resolve` (write-time checks, `Model/Checks.lean`): in every reachable state that `write`
+    accepts, every object held by an attribute of an object — a frame's channels included — was added through the
+    same logical file as its holder, is emitted in one of that logical file's set records, and is the only object
+    of that logical file with its (set type, name, copy number): the reference resolves, to exactly one object, in its
+    logical file; `foreign_reference_refused` is the contrapositive the user sees, `own_references_accepted` says the
+    reference check refuses nothing else (no false refusals), `frame_channels_registered` the same for a frame's
+    channels.
   * `origin_backfilled`: an object created before the first origin of its logical file carries that origin's
     reference afterwards.
 -/
 import Dlismodel.Proofs.Api
+import Dlismodel.Proofs.Checks
 import Dlismodel.Proofs.Prim
 namespace Dlis.C07
 open Dlis
@@ -71,5 +75,107 @@ theorem origin_choice (oref dflt : Option Int) :
 example : (run (World.init 1) [.item 0 3 none [65] none .ok, .item 0 3 none [65] none .rejectLate,
     .origin 0 none [79] none .ok, .item 0 3 none [65] (some 7) .ok]).items.map (fun i => (i.origin, i.copy)) =
     [(some 0, 0), (some 0, 0), (some 7, 1)] := by decide +kernel
+
+/-! ### every reference resolves in its logical file (write-time checks) -/
+
+/-- In every state reachable by add_* calls that `write` accepts, with any reference edges between the objects: the
+object a reference points to was added through the holder's logical file, is emitted in a set record of that
+logical file, and no other object of that logical file has its set type, name and copy number. -/
+theorem accepted_references_resolve (n : Nat) (ops : List Op) (hv : ∀ op ∈ ops, op.lf < n)
+    (c f : Nat) (es : List Edge) (fid : Nat → Bool)
+    (hacc : acceptWrite (run (World.init n) ops) c f es fid = .ok ())
+    (e : Edge) (he : e ∈ es) (hh : e.holder < (run (World.init n) ops).items.length) :
+    ∃ ht : e.target < (run (World.init n) ops).items.length,
+      let w := run (World.init n) ops
+      w.items[e.target].lf = w.items[e.holder].lf ∧
+      (∃ its, (w.items[e.target].key, its) ∈ setRecords w w.items[e.holder].lf ∧ w.items[e.target] ∈ its) ∧
+      ∀ j (hj : j < w.items.length), w.items[j].lf = w.items[e.holder].lf → w.items[j].kind = w.items[e.target].kind →
+        w.items[j].name = w.items[e.target].name → w.items[j].copy = w.items[e.target].copy → j = e.target := by
+  obtain ⟨hreg, hcopy⟩ := run_invariants n ops hv
+  generalize run (World.init n) ops = w at *
+  obtain ⟨hchk, hw⟩ := acceptWrite_ok w c f es fid hacc
+  have hns : NoShared w := by
+    unfold writable at hw
+    simp only [Bool.and_eq_true, Bool.not_eq_eq_eq_not, Bool.not_true] at hw
+    exact noShared_of_sharedSet w hw.2
+  have hkey := hreg.itemKey _ (List.getElem_mem hh)
+  have hlf : w.items[e.holder].lf < w.keys.length := lfKeys_mem_lt w _ _ hkey
+  have hrefs := (checkObjects_ok w _ c f es fid (hchk _ hlf)).2.2.2
+  have hin : inLf w w.items[e.holder].lf e.holder = true := (inLf_iff w _ _).mpr ⟨hh, hkey⟩
+  have htin := (checkReferences_ok_iff w _ es).mp hrefs e he hin
+  obtain ⟨ht, _⟩ := (inLf_iff w _ _).mp htin
+  have hsame := (inLf_iff_lf w hreg hns _ _ ht).mp htin
+  refine ⟨ht, hsame, ?_, ?_⟩
+  · have := records_complete w hreg _ (List.getElem_mem ht)
+    rw [hsame] at this; exact this
+  · intro j hj h1 h2 h3 h4
+    by_cases hjt : j = e.target
+    · exact hjt
+    · exact absurd h4 (copy_unique w hcopy j e.target hj ht hjt (by rw [h1, hsame]) h2 h3)
+
+/-- what the user sees: a specification in which some attribute holds an object of another logical file is refused -/
+theorem foreign_reference_refused (n : Nat) (ops : List Op) (hv : ∀ op ∈ ops, op.lf < n)
+    (c f : Nat) (es : List Edge) (fid : Nat → Bool) (e : Edge) (he : e ∈ es)
+    (hh : e.holder < (run (World.init n) ops).items.length) (ht : e.target < (run (World.init n) ops).items.length)
+    (hne : (run (World.init n) ops).items[e.target].lf ≠ (run (World.init n) ops).items[e.holder].lf) :
+    acceptWrite (run (World.init n) ops) c f es fid ≠ .ok () := by
+  intro hacc
+  obtain ⟨_, h, _⟩ := accepted_references_resolve n ops hv c f es fid hacc e he hh
+  exact hne h
+
+/-- no false refusals: when no set is shared, the reference check of a logical file passes if every reference stays
+within the logical file of its holder (and all targets exist) -/
+theorem own_references_accepted (n : Nat) (ops : List Op) (hv : ∀ op ∈ ops, op.lf < n) (es : List Edge)
+    (hns : sharedSet (run (World.init n) ops) = false)
+    (hown : ∀ e ∈ es, ∀ hh : e.holder < (run (World.init n) ops).items.length,
+      ∃ ht : e.target < (run (World.init n) ops).items.length,
+        (run (World.init n) ops).items[e.target].lf = (run (World.init n) ops).items[e.holder].lf) (lf : Nat) :
+    checkReferences (run (World.init n) ops) lf es = .ok () := by
+  obtain ⟨hreg, _⟩ := run_invariants n ops hv
+  generalize run (World.init n) ops = w at *
+  have hn := noShared_of_sharedSet w hns
+  rw [checkReferences_ok_iff]
+  intro e he hin
+  obtain ⟨hh, _⟩ := (inLf_iff w _ _).mp hin
+  obtain ⟨ht, hsame⟩ := hown e he hh
+  have h1 := (inLf_iff_lf w hreg hn lf _ hh).mp hin
+  exact (inLf_iff_lf w hreg hn lf _ ht).mpr (by rw [hsame, h1])
+
+/-- frame to channels: in an accepted state every object a frame of a logical file holds as a channel is an object of
+a CHANNEL set of that logical file -/
+theorem frame_channels_registered (n : Nat) (ops : List Op) (c f : Nat) (es : List Edge) (fid : Nat → Bool)
+    (hacc : acceptWrite (run (World.init n) ops) c f es fid = .ok ())
+    (e : Edge) (he : e ∈ es) (hvia : e.viaChannels = true) (lf : Nat) (hlf : lf < (run (World.init n) ops).keys.length)
+    (hh : e.holder < (run (World.init n) ops).items.length)
+    (hk : (run (World.init n) ops).items[e.holder].kind = f)
+    (hin : (run (World.init n) ops).items[e.holder].key ∈ lfKeys (run (World.init n) ops) lf) :
+    ∃ ht : e.target < (run (World.init n) ops).items.length,
+      (run (World.init n) ops).items[e.target].kind = c ∧
+      (run (World.init n) ops).items[e.target].key ∈ lfKeys (run (World.init n) ops) lf := by
+  generalize run (World.init n) ops = w at *
+  obtain ⟨hchk, _⟩ := acceptWrite_ok w c f es fid hacc
+  have hfc := (checkObjects_ok w lf c f es fid (hchk lf hlf)).2.1
+  unfold checkFrameChannels at hfc
+  split at hfc
+  · rename_i hall
+    have h := List.all_eq_true.mp hall e he
+    have hinl : inLf w lf e.holder = true := (inLf_iff w _ _).mpr ⟨hh, hin⟩
+    simp only [hvia, hinl, List.getElem?_eq_getElem hh, Option.map_some, hk, decide_true, Bool.and_self,
+      Bool.not_true, Bool.false_or, Bool.and_eq_true, decide_eq_true_eq] at h
+    obtain ⟨ht, hkk⟩ := (inLf_iff w _ _).mp h.1
+    refine ⟨ht, ?_, hkk⟩
+    have h2 := h.2
+    rw [List.getElem?_eq_getElem ht] at h2
+    simpa using h2
+  · cases hfc
+
+/-- non-vacuity: two logical files, a frame holding its own channel (accepted) / the other file's channel (refused) -/
+example :
+    let w := run (World.init 2) [.origin 0 (some [48]) [79] none .ok, .item 0 11 (some [48]) [67] none .ok,
+      .item 0 12 (some [48]) [70] none .ok, .origin 1 (some [49]) [79] none .ok, .item 1 11 (some [49]) [67] none .ok,
+      .item 1 12 (some [49]) [70] none .ok]
+    acceptWrite w 11 12 [⟨2, 1, true⟩, ⟨5, 4, true⟩, ⟨4, 3, false⟩] (fun _ => true) = .ok () ∧
+    acceptWrite w 11 12 [⟨2, 4, true⟩] (fun _ => true) = .error .channelNotRegistered ∧
+    acceptWrite w 11 12 [⟨4, 1, false⟩] (fun _ => true) = .error .foreignReference := by decide +kernel
 
 end Dlis.C07
